@@ -47,7 +47,29 @@ func (d *D) runFuzz(target string, execs int64, key string) {
 		input, _ := os.ReadFile(p)
 		keep := filepath.Join(verifDir, "out", "replay", d.ID+"-fuzz-"+filepath.Base(p))
 		_ = os.WriteFile(keep, input, 0644)
+		// The fuzzing engine also reports an input when its worker process was killed or starved ("hung or terminated
+		// unexpectedly") - on a loaded machine that says nothing about the library. The verdict is therefore taken from a
+		// deterministic re-run of exactly that input in a fresh process: only a reproducible failure is a violation.
+		reproduced := 0
+		var rerunOut []byte
+		for i := 0; i < 3; i++ {
+			rc := exec.Command("go", "test", "-tags", "verif", "-count=1", "-run", "^"+target+"$/^"+filepath.Base(p)+"$", ".")
+			rc.Dir = dir
+			o, e := rc.CombinedOutput()
+			rerunOut = o
+			if e != nil {
+				reproduced++
+			}
+		}
 		_ = os.Remove(p) // do not leave a regression seed behind in the tree
+		if reproduced == 0 {
+			d.mu.Lock()
+			d.Inconcl = append(d.Inconcl, fmt.Sprintf("fuzz target %s: the engine reported input %s (kept at %s) but it passes in 3 of 3 isolated re-runs (worker process killed or starved); fuzzing stopped after %d executions", target, filepath.Base(p), keep, n))
+			d.mu.Unlock()
+			d.AddDistinct("fuzz|" + target + "|stopped-early")
+			return
+		}
+		_ = rerunOut
 		d.Violate(key, fmt.Sprintf("coverage-guided fuzzing (%s) found a failing input (kept at %s):\n%s\n%s", target, keep, trunc(string(input), 600), trunc(tailFile(logPath, 1500), 1500)),
 			map[string]any{"fuzz_target": target, "corpus_entry": string(input)})
 		return
